@@ -547,6 +547,21 @@ theorem C18_complete_means_complete (s : Recv.State) (h : s.delivery ≠ .Comple
 
 end Cfdp.Loop
 
+namespace Cfdp.Recv
+open Cfdp.Codec Cfdp.Gen Cfdp.Timer
+
+/-- **C18 (receiver, closure ends quietly).**  Nothing is acknowledged in unacknowledged mode: when
+the repeated closure Finished PDU reaches the positive-ACK limit, the receiver just ends — no fault
+is declared, no further indication is raised and the outcome already reported stands. -/
+theorem C18_recv_closure_ends_quietly (s : State) (now : Nat) (hm : s.cfg.mode = .Unacknowledged)
+    (hl : (s.timer.ack.limitReached now).2 = true) :
+    (handleAckTimer s now false).state = .Terminated ∧ (handleAckTimer s now false).out = s.out ∧
+    (handleAckTimer s now false).finished = s.finished ∧ (handleAckTimer s now false).condition = s.condition := by
+  have : (s.cfg.mode == TransmissionMode.Unacknowledged) = true := by rw [hm]; rfl
+  simp only [handleAckTimer, hl, if_true, Bool.false_eq_true, if_false, this, shutdown, and_self]
+
+end Cfdp.Recv
+
 /-! ### sender -/
 namespace Cfdp.Send
 open Cfdp.Codec Cfdp.Gen
@@ -649,3 +664,4 @@ end Cfdp.Loop
 #print axioms Cfdp.Send.C18_send_waits
 #print axioms Cfdp.Send.C18_send_reports_outcome
 #print axioms Cfdp.Send.C18_send_ignores_finished_without_closure
+#print axioms Cfdp.Recv.C18_recv_closure_ends_quietly
